@@ -167,3 +167,171 @@ Print Assumptions C13_history_prefix.
 Print Assumptions C13_eq_spec.
 Print Assumptions C13_cmp_spec.
 Print Assumptions C13_shl_limbs_refines.
+
+(** SOURCE TIE (tools/rs2coq rules 28-30): the unsafe fixed-capacity vector src/stackvec.rs (every function of impl StackVec, Deref::deref) and the raw-pointer body of bigint::shl_limbs are regenerated as Gallina over the cell-level memory model on every run (coq/gen/SrcStackVec.v; ptr::write / read / copy / copy_nonoverlapping / write_bytes / slice::from_raw_parts mapped to the raw accesses of model/RawVec.v) and proved EQUAL to the hand-written cell-level model the theorems above are about; safe_*: for the safe API under the invariant Inv alone; src_*: the refinement to the list-level vector transferred to the regenerated text.  Where the hand model is stricter than the Rust text (it turns the safety contract of set_len / truncate_unchecked into UB) the equality is stated with that contract as hypothesis. *)
+From ML Require Import model.SrcLib model.SrcLibRaw gen.SrcStackVec proofs.RawVecFacts proofs.SrcEqStackVec.
+
+Theorem C13_rs_sv_new_eq :
+  forall (L : limits) (b : build), rs_sv_new L b = Ok (raw_new L).
+Proof. exact rs_sv_new_eq. Qed.
+
+Theorem C13_rs_sv_len_eq :
+  forall (L : limits) (b : build) (r : raw), len_usize r -> rs_sv_len L b r = Ok (rlen r).
+Proof. exact rs_sv_len_eq. Qed.
+
+Theorem C13_rs_sv_capacity_eq :
+  forall (L : limits) (b : build) (r : raw), rs_sv_capacity L b r = Ok (cap L).
+Proof. exact rs_sv_capacity_eq. Qed.
+
+Theorem C13_rs_sv_set_len_eq :
+  forall (L : limits) (b : build) (r : raw) (len : Z),
+         len <= cap L \/ dbg b = true -> rs_sv_set_len L b r len = set_len L b r len.
+Proof. exact rs_sv_set_len_eq. Qed.
+
+Theorem C13_rs_sv_truncate_unchecked_eq :
+  forall (L : limits) (b : build) (r : raw) (len : Z),
+         len <= cap L \/ dbg b = true -> rs_sv_truncate_unchecked L b r len = truncate_unchecked L b r len.
+Proof. exact rs_sv_truncate_unchecked_eq. Qed.
+
+Theorem C13_rs_sv_push_unchecked_eq :
+  forall (L : limits) (b : build) (r : raw) (x : Z),
+         len_usize r -> rs_sv_push_unchecked L b r x = push_unchecked L b r x.
+Proof. exact rs_sv_push_unchecked_eq. Qed.
+
+Theorem C13_rs_sv_try_push_eq :
+  forall (L : limits) (b : build) (r : raw) (x : Z),
+         len_usize r -> rs_sv_try_push L b r x = try_push L b r x.
+Proof. exact rs_sv_try_push_eq. Qed.
+
+Theorem C13_rs_sv_pop_unchecked_eq :
+  forall (L : limits) (b : build) (r : raw),
+         len_usize r -> rs_sv_pop_unchecked L b r = pop_unchecked b r.
+Proof. exact rs_sv_pop_unchecked_eq. Qed.
+
+Theorem C13_rs_sv_pop_eq :
+  forall (L : limits) (b : build) (r : raw), len_usize r -> rs_sv_pop L b r = pop b r.
+Proof. exact rs_sv_pop_eq. Qed.
+
+Theorem C13_rs_sv_extend_unchecked_eq :
+  forall (L : limits) (b : build) (r : raw) (s : list Z),
+         len_usize r -> buf_ok L r -> rs_sv_extend_unchecked L b r s = extend_unchecked L b r s.
+Proof. exact rs_sv_extend_unchecked_eq. Qed.
+
+Theorem C13_rs_sv_try_extend_eq :
+  forall (L : limits) (b : build) (r : raw) (s : list Z),
+         len_usize r -> buf_ok L r -> rs_sv_try_extend L b r s = try_extend L b r s.
+Proof. exact rs_sv_try_extend_eq. Qed.
+
+Theorem C13_rs_sv_resize_unchecked_eq :
+  forall (L : limits) (b : build) (r : raw) (len x : Z),
+         len_usize r ->
+         len < 2 ^ 64 ->
+         len <= cap L \/ dbg b = true \/ rlen r < len ->
+         rs_sv_resize_unchecked L b r len x = resize_unchecked L b r len x.
+Proof. exact rs_sv_resize_unchecked_eq. Qed.
+
+Theorem C13_rs_sv_try_resize_eq :
+  forall (L : limits) (b : build) (r : raw) (len x : Z),
+         len_usize r -> len < 2 ^ 64 -> rs_sv_try_resize L b r len x = try_resize L b r len x.
+Proof. exact rs_sv_try_resize_eq. Qed.
+
+Theorem C13_rs_sv_try_from_eq :
+  forall (L : limits) (b : build) (s : list Z), rs_sv_try_from L b s = try_from L b s.
+Proof. exact rs_sv_try_from_eq. Qed.
+
+Theorem C13_rs_sv_deref_eq :
+  forall (L : limits) (b : build) (r : raw), len_usize r -> rs_sv_deref L b r = deref r.
+Proof. exact rs_sv_deref_eq. Qed.
+
+Theorem C13_rs_sv_shl_limbs_eq :
+  forall (L : limits) (b : build) (r : raw) (n : Z),
+         len_usize r -> rs_sv_shl_limbs L b r n = shl_limbs L b r n.
+Proof. exact rs_sv_shl_limbs_eq. Qed.
+
+Theorem C13_safe_try_push :
+  forall (L : limits) (b : build),
+         limits_ok L -> forall (r : raw) (x : Z), Inv L r -> rs_sv_try_push L b r x = try_push L b r x.
+Proof. exact safe_try_push. Qed.
+
+Theorem C13_safe_pop :
+  forall (L : limits) (b : build), limits_ok L -> forall r : raw, Inv L r -> rs_sv_pop L b r = pop b r.
+Proof. exact safe_pop. Qed.
+
+Theorem C13_safe_try_extend :
+  forall (L : limits) (b : build),
+         limits_ok L -> forall (r : raw) (s : list Z), Inv L r -> rs_sv_try_extend L b r s = try_extend L b r s.
+Proof. exact safe_try_extend. Qed.
+
+Theorem C13_safe_try_resize :
+  forall (L : limits) (b : build),
+         limits_ok L ->
+         forall (r : raw) (len x : Z), Inv L r -> rs_sv_try_resize L b r len x = try_resize L b r len x.
+Proof. exact safe_try_resize. Qed.
+
+Theorem C13_safe_try_from :
+  forall (L : limits) (b : build) (s : list Z), rs_sv_try_from L b s = try_from L b s.
+Proof. exact safe_try_from. Qed.
+
+Theorem C13_safe_deref :
+  forall (L : limits) (b : build), limits_ok L -> forall r : raw, Inv L r -> rs_sv_deref L b r = deref r.
+Proof. exact safe_deref. Qed.
+
+Theorem C13_safe_shl_limbs :
+  forall (L : limits) (b : build),
+         limits_ok L -> forall (r : raw) (n : Z), Inv L r -> rs_sv_shl_limbs L b r n = shl_limbs L b r n.
+Proof. exact safe_shl_limbs. Qed.
+
+Theorem C13_src_try_push_ok :
+  forall (L : limits) (b : build),
+         limits_ok L ->
+         forall (r : raw) (l : list Z) (x : Z),
+         Rep L r l ->
+         zlen l < BIGINT_LIMBS L ->
+         0 <= x < B64 -> exists r' : raw, rs_sv_try_push L b r x = Ok (r', true) /\ Rep L r' (l ++ [x]).
+Proof. exact src_try_push_ok. Qed.
+
+Theorem C13_src_deref_rep :
+  forall (L : limits) (b : build),
+         limits_ok L -> forall (r : raw) (l : list Z), Rep L r l -> rs_sv_deref L b r = Ok l.
+Proof. exact src_deref_rep. Qed.
+
+Theorem C13_src_shl_limbs_refines :
+  forall (L : limits) (b : build),
+         limits_ok L ->
+         forall (r : raw) (n : Z),
+         Inv L r ->
+         0 <= n < 2 ^ 32 ->
+         match Bigint.shl_limbs b (ref_vec L (abs r)) n with
+         | Ok (Some v) => exists r' : raw, rs_sv_shl_limbs L b r n = Ok (r', true) /\ Inv L r' /\ abs r' = vl v
+         | Ok None => rs_sv_shl_limbs L b r n = Ok (r, false)
+         | Panic k => rs_sv_shl_limbs L b r n = Panic k
+         | UB _ => False
+         end.
+Proof. exact src_shl_limbs_refines. Qed.
+
+Print Assumptions C13_rs_sv_new_eq.
+Print Assumptions C13_rs_sv_len_eq.
+Print Assumptions C13_rs_sv_capacity_eq.
+Print Assumptions C13_rs_sv_set_len_eq.
+Print Assumptions C13_rs_sv_truncate_unchecked_eq.
+Print Assumptions C13_rs_sv_push_unchecked_eq.
+Print Assumptions C13_rs_sv_try_push_eq.
+Print Assumptions C13_rs_sv_pop_unchecked_eq.
+Print Assumptions C13_rs_sv_pop_eq.
+Print Assumptions C13_rs_sv_extend_unchecked_eq.
+Print Assumptions C13_rs_sv_try_extend_eq.
+Print Assumptions C13_rs_sv_resize_unchecked_eq.
+Print Assumptions C13_rs_sv_try_resize_eq.
+Print Assumptions C13_rs_sv_try_from_eq.
+Print Assumptions C13_rs_sv_deref_eq.
+Print Assumptions C13_rs_sv_shl_limbs_eq.
+Print Assumptions C13_safe_try_push.
+Print Assumptions C13_safe_pop.
+Print Assumptions C13_safe_try_extend.
+Print Assumptions C13_safe_try_resize.
+Print Assumptions C13_safe_try_from.
+Print Assumptions C13_safe_deref.
+Print Assumptions C13_safe_shl_limbs.
+Print Assumptions C13_src_try_push_ok.
+Print Assumptions C13_src_deref_rep.
+Print Assumptions C13_src_shl_limbs_refines.
